@@ -77,6 +77,22 @@ def generate(rng, tier, seed):
             base = seed * 1000 + rng.randrange(1000)
             cases.append(mk(threads, [], fini, ["pct", 3, base, 8 if thorough else 4]))
             cases.append(mk(threads, [], fini, ["random", base, 4 if thorough else 2]))
+    # a task that posts from INSIDE the worker while a large backlog is queued behind it (a queue that makes posters wait must not
+    # make the worker wait for itself)
+    for nb in ([100, 300] if thorough else [300]):
+        tid[0] = 0
+        first = post(fresh(), ["sleep", 1], post(fresh()))        # (while the task sleeps the client posts the whole backlog)
+        threads = [["c0", first] + [post(fresh()) for _ in range(nb)]]
+        base = seed * 1000 + rng.randrange(1000)
+        cases.append(mk(threads, [], [], ["pct", 3, base, 8 if thorough else 4]))
+    # the scenario's own handle of the scheduler is dropped (no abort) while tasks are queued: they still run
+    for _ in range(12 if thorough else 4):
+        tid[0] = 0
+        k = rng.randrange(2, 6)
+        threads = [["c0", post(fresh(), ["sleep", rng.choice([1, 2])])] + [post(fresh()) for _ in range(k)] + [["drop-sched", 0]]]
+        base = seed * 1000 + rng.randrange(1000)
+        cases.append(mk(threads, [], [], ["random", base, 40 if thorough else 15]))
+        cases.append(mk(threads, [], [], ["pct", 3, base, 20 if thorough else 8]))
     # default scheduler: post runs the task synchronously
     for _ in range(20 if thorough else 6):
         tid[0] = 0
